@@ -912,7 +912,7 @@ def run_vector(case, ctx):
             def rot(v):
                 return np.array([v[0] * ca - v[1] * sa, v[0] * sa + v[1] * ca, v[2]])
             want = rot(g2)
-            lim = 1e-10 * max(float(np.linalg.norm(g2)), vscale * 1e-6, 1e-300)
+            lim = 1e-10 * max(float(np.max(np.abs(g2))), vscale * 1e-6, 1e-300)   # max-abs: norm() underflows for |v| ~ 1e-178
             ok = float(np.max(np.abs(g3 - want))) <= lim
             if not ok and (either[i] or near1[i]):      # a 1-ulp radius difference may change sides on the boundary
                 ok = float(np.max(np.abs(g3 - rot(outv)))) <= lim or bool(np.all(g2 == outv))
